@@ -5,6 +5,7 @@ package main
 import (
 	"verif/vlib"
 
+	_ "verif/echecks/interp"
 	_ "verif/echecks/npipes"
 	_ "verif/echecks/pipes"
 )
